@@ -4,6 +4,7 @@ import math
 import warnings
 from collections.abc import Iterable
 from functools import partial, reduce, wraps
+from itertools import product
 from numbers import Integral, Real
 
 import numpy as np
@@ -2393,18 +2394,33 @@ def coarsen(reduction, x, axes, trim_excess=False, **kwargs):
     if new_chunks:
         x = x.rechunk(new_chunks)
 
+    coarsen_dim = lambda dim, ax: int(dim // axes.get(ax, 1))
+    # Blocks that coarsen to nothing are left out of the result, so the
+    # remaining blocks have to be renumbered
+    kept = [
+        [j for j, bd in enumerate(bds) if coarsen_dim(bd, i) > 0]
+        for i, bds in enumerate(x.chunks)
+    ]
+    chunks = tuple(
+        tuple(coarsen_dim(x.chunks[i][j], i) for j in js) for i, js in enumerate(kept)
+    )
+
     name = "coarsen-" + tokenize(reduction, x, axes, trim_excess)
     dsk = {
         (name,)
-        + key[1:]: (apply, chunk.coarsen, [reduction, key, axes, trim_excess], kwargs)
-        for key in flatten(x.__dask_keys__())
+        + idx: (
+            apply,
+            chunk.coarsen,
+            [
+                reduction,
+                (x.name,) + tuple(js[k] for js, k in zip(kept, idx)),
+                axes,
+                trim_excess,
+            ],
+            kwargs,
+        )
+        for idx in product(*(range(len(js)) for js in kept))
     }
-
-    coarsen_dim = lambda dim, ax: int(dim // axes.get(ax, 1))
-    chunks = tuple(
-        tuple(coarsen_dim(bd, i) for bd in bds if coarsen_dim(bd, i) > 0)
-        for i, bds in enumerate(x.chunks)
-    )
 
     meta = reduction(np.empty((1,) * x.ndim, dtype=x.dtype), **kwargs)
     graph = HighLevelGraph.from_collections(name, dsk, dependencies=[x])
